@@ -9,6 +9,7 @@ CONSTANTS
   EnableBranch = TRUE
   SidecarNextSeq = TRUE
   LineageLocked = FALSE
+  LockedLineage = TRUE
   SecondInput = TRUE
   Tasks = {}
   TaskGuarded = TRUE
